@@ -122,10 +122,9 @@ fn plan(c: &Case) -> Plan {
     let wb: Vec<f64> = c.wb.iter().map(|w| w.0).collect();
     let j = jp(&wa, &wb);
     let m = c.m as f64;
-    let mut checks = vec![
-        Check { name: "mean of the fraction of equal positions vs J_P".into(), want: Want::Mean { mu: j, var_h: Some(1.05 * j * (1.0 - j) / m + 1e-12) } },
-        Check { name: "mean squared error vs J_P(1-J_P)/m".into(), want: Want::Upper { bound: j * (1.0 - j) / m, range: j.max(1.0 - j).powi(2) } },
-    ];
+    // order of the comparisons: mean, single-set cells, and the mean-squared-error bound LAST (decide_multi reports the first
+    // comparison that fails twice, so a reported MSE failure means that every other comparison of the case passed)
+    let mut checks = vec![Check { name: "mean of the fraction of equal positions vs J_P".into(), want: Want::Mean { mu: j, var_h: Some(1.05 * j * (1.0 - j) / m + 1e-12) } }];
     // single set A: cells = items with expected hits >= 50, the rest lumped together
     let wsum = crate::oracle::jp::ksum(wa.iter().cloned());
     let mut cell_of = vec![usize::MAX; wa.len()];
@@ -154,6 +153,7 @@ fn plan(c: &Case) -> Plan {
     for (k, p) in probs.iter().enumerate() {
         checks.push(Check { name: format!("single set: probability that a position holds an item of cell {} (w/sum w = {:.6})", k, p), want: Want::Mean { mu: *p, var_h: None } });
     }
+    checks.push(Check { name: "mean squared error vs J_P(1-J_P)/m".into(), want: Want::Upper { bound: j * (1.0 - j) / m, range: j.max(1.0 - j).powi(2) } });
     // exact side conditions
     let same_support = wa.iter().zip(wb.iter()).all(|(a, b)| (*a > 0.0) == (*b > 0.0));
     let ratio: Vec<f64> = wa.iter().zip(wb.iter()).filter(|(a, _)| **a > 0.0).map(|(a, b)| b / a).collect();
@@ -186,7 +186,7 @@ fn sample(c: &Case, pl: &Plan, seed: u64, trials: u64, exact_fail: &std::cell::R
             *exact_fail.borrow_mut() = Some(format!("the two sets have disjoint supports, yet the estimate is {} instead of exactly 0", est));
         }
         accs[0].push(est);
-        accs[1].push((est - pl.jp) * (est - pl.jp));
+        accs[1 + pl.ncells].push((est - pl.jp) * (est - pl.jp));
         // single set statistics on A
         cell_hits.iter_mut().for_each(|h| *h = 0);
         for d in &sa.sig {
@@ -199,7 +199,7 @@ fn sample(c: &Case, pl: &Plan, seed: u64, trials: u64, exact_fail: &std::cell::R
             }
         }
         for k in 0..pl.ncells {
-            accs[2 + k].push(cell_hits[k] as f64 / c.m as f64);
+            accs[1 + k].push(cell_hits[k] as f64 / c.m as f64);
         }
     }
     accs
@@ -214,7 +214,30 @@ pub fn eval(c: &Case) -> Eval {
     if let Some(msg) = exact_fail.borrow().as_ref() {
         return Err(Fail::new(format!("{}: {}", what, msg)));
     }
-    let tests = res?;
+    let tests = match res {
+        Ok(t) => t,
+        Err(mut f) => {
+            // KNOWN FINDING pmh3-mse-tiny-m: the ProbMinHash3 family (3, 3a, 3a-Sha) puts exactly one point into every unit interval of an
+            // item, so the registers of one item are dependent; for tiny m the collision indicators of the positions are positively
+            // correlated for some weight profiles and the MSE exceeds J_P(1-J_P)/m (measured: up to x1.22 at m = 2, x1.04 at m = 3,
+            // x1.007 at m = 4; an independent simulation of the algorithm as published shows the same). Recognised only when every
+            // other comparison of the case passed, for these variants, m <= 6, and an excess below the cap for that m.
+            if let Some((i, e1, e2, bound)) = f.stat {
+                let cap = match c.m {
+                    2 => 1.30,
+                    3 => 1.08,
+                    4 => 1.03,
+                    5 | 6 => 1.02,
+                    _ => 0.0,
+                };
+                let family = matches!(c.variant, Variant::P3 | Variant::P3a | Variant::P3aSha);
+                if i == pl.checks.len() - 1 && family && bound > 0.0 && e1 <= cap * bound && e2 <= cap * bound {
+                    f.signature = Some("pmh3-mse-tiny-m".into());
+                }
+            }
+            return Err(f);
+        }
+    };
     let j = pl.jp;
     let na = c.wa.iter().filter(|w| w.0 > 0.0).count();
     let nb = c.wb.iter().filter(|w| w.0 > 0.0).count();
